@@ -69,9 +69,11 @@ def base_model():
             "e": {"type": "E", "args": {"i": {"type": "In"}, "k": {"type": "Int", "default": "1"}, "r": {"type": "[Int!]!"}}}}},
         "A": {"kind": "type", "ifaces": ["Node"], "fields": {
             "id": {"type": "ID!", "args": {}}, "x": {"type": "[Int!]", "args": {}},
-            "old": {"type": "Int", "args": {}, "deprecated": "gone"}, "self": {"type": "A", "args": {}}}},
+            "old": {"type": "Int", "args": {}, "deprecated": "gone"}, "self": {"type": "A", "args": {}},
+            "rel": {"type": "Node", "args": {"k": {"type": "Int", "default": "1"}, "q": {"type": "[Int!]"}}}}},
         "B": {"kind": "type", "ifaces": [], "fields": {"b": {"type": "Int", "args": {}}}},
-        "Node": {"kind": "interface", "fields": {"id": {"type": "ID!", "args": {}}}},
+        "Node": {"kind": "interface", "fields": {"id": {"type": "ID!", "args": {}},
+                                                  "rel": {"type": "Node", "args": {"k": {"type": "Int", "default": "1"}, "q": {"type": "[Int!]"}}}}},
         "U": {"kind": "union", "members": ["A", "B"]},
         "E": {"kind": "enum", "values": {"X": {}, "Y": {"deprecated": "r"}, "Z": {}}},
         "In": {"kind": "input", "fields": {"f": {"type": "Int!"}, "g": {"type": "String", "default": '"s"'}, "h": {"type": "[In!]"}}},
@@ -89,7 +91,28 @@ def _args(args):
     return "(" + ", ".join("%s: %s%s" % (n, a["type"], (" = " + a["default"]) if a.get("default") is not None else "") for n, a in args.items()) + ")"
 
 
-def render(m, order=None):
+def _rev(d, on):
+    items = list(d.items()) if isinstance(d, dict) else list(d)
+    if on:
+        items.reverse()
+    return dict(items) if isinstance(d, dict) else items
+
+
+def render(m, order=None, reverse_members=False):
+    if reverse_members:
+        m = copy.deepcopy(m)
+        for name, t in m.items():
+            if name == "order":
+                continue
+            for key in ("fields", "values", "args"):
+                if key in t:
+                    t[key] = _rev(t[key], True)
+            for key in ("members", "locations", "ifaces"):
+                if key in t:
+                    t[key] = _rev(t[key], True)
+            for f in t.get("fields", {}).values():
+                if isinstance(f, dict) and "args" in f:
+                    f["args"] = _rev(f["args"], True)
     out = []
     for name in (order or m["order"]):
         if name not in m:
@@ -122,7 +145,8 @@ CORPUS = [
     "query ($i: In, $k: Int, $r: [Int!]!) { e(i: $i, k: $k, r: $r) }", "query ($f: Int!) { e(r: [1], i: {f: $f}) }",
     "query ($k: Int = 3) { e(k: $k, r: [1]) }", "{ a @d { id } }", "{ a @d(x: 1) { id } }", "query @d(y: 3) { b { b } }",
     "fragment F on Node { id } { n { ...F } a { ...F } }", "fragment G on U { ... on A { self { id } } } { u { ...G } }",
-    "{ a { ... on Node { id } } }", "query ($e: E = X) { v(ee: $e) }", "query ($e: [E!] = [X, Z]) { v(es: $e) }", "{ v(ee: Z, es: [X]) }",
+    "{ a { ... on Node { id } } }", "{ n { rel { id } } }", "{ n { rel(k: 2, q: [1]) { id } } }", "{ a { rel(k: 1) { id rel { id } } } }",
+    "query ($k: Int, $q: [Int!]) { n { rel(k: $k, q: $q) { id } } }", "query ($e: E = X) { v(ee: $e) }", "query ($e: [E!] = [X, Z]) { v(es: $e) }", "{ v(ee: Z, es: [X]) }",
     "query ($in: [In!]) { v(ins: $in) }", "{ __type(name: \"A\") { name } }",
 ]
 
@@ -183,7 +207,7 @@ def _edits():
     @ed("remove_union_member", "TypeRemovedFromUnion", ["U", "B"])
     def _(m): m["U"]["members"].remove("B")
     @ed("add_interface", "TypeAddedToInterface", ["B", "Node"])
-    def _(m): m["B"]["ifaces"].append("Node"); m["B"]["fields"]["id"] = {"type": "ID!", "args": {}}
+    def _(m): m["B"]["ifaces"].append("Node"); m["B"]["fields"]["id"] = {"type": "ID!", "args": {}}; m["B"]["fields"]["rel"] = copy.deepcopy(m["Node"]["fields"]["rel"])
     @ed("remove_interface", "TypeRemovedFromInterface", ["A", "Node"])
     def _(m): m["A"]["ifaces"].remove("Node")
     @ed("add_directive", "DirectiveAdded", ["z"])
@@ -208,6 +232,19 @@ def _edits():
     def _(m): m["A"]["fields"]["old"]["deprecated"] = None
     @ed("field_reason", "FieldDeprecationReasonChanged", ["A", "old"])
     def _(m): m["A"]["fields"]["old"]["deprecated"] = "other"
+    # the same field-level edits on an INTERFACE field (the implementing type follows where the schema must stay valid)
+    @ed("iface_remove_field", "FieldRemoved", ["Node", "rel"])
+    def _(m): del m["Node"]["fields"]["rel"]
+    @ed("iface_add_opt_arg", "FieldArgumentAdded", ["Node", "rel", "z"])
+    def _(m): m["Node"]["fields"]["rel"]["args"]["z"] = {"type": "Int"}; m["A"]["fields"]["rel"]["args"]["z"] = {"type": "Int"}
+    @ed("iface_add_req_arg", "FieldArgumentAdded", ["Node", "rel", "z"])
+    def _(m): m["Node"]["fields"]["rel"]["args"]["z"] = {"type": "Int!"}; m["A"]["fields"]["rel"]["args"]["z"] = {"type": "Int!"}
+    @ed("iface_remove_arg", "FieldArgumentRemoved", ["Node", "rel", "k"])
+    def _(m): del m["Node"]["fields"]["rel"]["args"]["k"]; del m["A"]["fields"]["rel"]["args"]["k"]
+    @ed("iface_arg_default_changed", "FieldArgumentDefaultValueChange", ["Node", "rel", "k"])
+    def _(m): m["Node"]["fields"]["rel"]["args"]["k"]["default"] = "5"; m["A"]["fields"]["rel"]["args"]["k"]["default"] = "5"
+    @ed("iface_deprecate_field", "FieldDeprecated", ["Node", "rel"])
+    def _(m): m["Node"]["fields"]["rel"]["deprecated"] = "why"
     return E
 
 
@@ -216,7 +253,9 @@ EDITS = _edits()
 # elements an edit touches (beyond the names in its expected message); two edits are combined only when no
 # element of one is the other's element or its container
 EXTRA_TOUCH = {
-    "remove_type": [("U",), ("Query", "b")], "add_iface_field": [("A", "extra")], "add_interface": [("B", "id")],
+    "remove_type": [("U",), ("Query", "b")], "add_iface_field": [("A", "extra")], "add_interface": [("B", "id"), ("B", "rel"), ("Node", "rel")],
+    "iface_add_opt_arg": [("A", "rel")], "iface_add_req_arg": [("A", "rel")], "iface_remove_arg": [("A", "rel")], "iface_arg_default_changed": [("A", "rel")],
+    "iface_remove_field": [("A", "rel")], "iface_deprecate_field": [("A", "rel")],
     "change_kind": [("Query", "e")], "add_union_member": [("U",)], "remove_union_member": [("U",)],
 }
 
@@ -246,6 +285,9 @@ RETYPE_SITES = (
     ("input", "In", "f", "Int!", "InputFieldChangedType"),
     ("input", "In", "h", "[In!]", "InputFieldChangedType"),
     ("dirarg", "d", "x", "Int", "DirectiveArgumentChangedType"),
+    ("field", "Node", "rel", "Node", "FieldChangedType"),                 # interface field (the implementing type is retyped alike)
+    ("arg", "Node", "rel", "q", "[Int!]", "FieldArgumentChangedType"),     # argument of an interface field
+    ("arg", "Node", "rel", "k", "Int", "FieldArgumentChangedType"),
 )
 RETYPE_WRAPS = ("", "!", "[", "[!", "![", "![!", "[[", "![[!")
 
@@ -274,17 +316,44 @@ def join_type(w, base):
 ORDERS = (None, "reversed")
 
 
+_BUILT = {}
+
+
+def built(sdl):
+    """schemas are only read by the differ and the validator: one build per distinct SDL text and process"""
+    if sdl not in _BUILT:
+        if len(_BUILT) > 64:
+            _BUILT.clear()
+        _BUILT[sdl] = build_schema(sdl)
+    return _BUILT[sdl]
+
+
 def changes_of(old_sdl, new_sdl):
-    old, new = build_schema(old_sdl), build_schema(new_sdl)
+    old, new = built(old_sdl), built(new_sdl)
     ch = list(diff_schema(old, new))
     return old, new, sorted((type(c).__name__, c.message, int(c.severity)) for c in ch)
 
 
+_CORPUS_DOCS = None
+_VALID = {}
+
+
+def valid_on(schema, i):
+    key = (id(schema), i)
+    if key not in _VALID:
+        if len(_VALID) > 5000:
+            _VALID.clear()
+        _VALID[key] = (schema, not validate_ast(schema, _CORPUS_DOCS[i]).errors)      # the schema is kept alive so that its id stays unique
+    return _VALID[key][1]
+
+
 def corpus_ok(old, new):
     """every corpus operation valid against old is valid against new"""
-    for q in CORPUS:
-        doc = parse(q)
-        if not validate_ast(old, doc).errors and validate_ast(new, doc).errors:
+    global _CORPUS_DOCS
+    if _CORPUS_DOCS is None:
+        _CORPUS_DOCS = [parse(q) for q in CORPUS]
+    for i, q in enumerate(CORPUS):
+        if valid_on(old, i) and not valid_on(new, i):
             return False, q
     return True, None
 
@@ -297,6 +366,11 @@ def check_pair(m_old, m_new, expect_cls, expect_names, order_new):
     # same result when the other schema is also spelled in another order
     _, _, ch2 = changes_of(render(m_old, list(reversed(m_old["order"]))), render(m_new))
     if ch != ch2:
+        return False
+    # ... and when the members INSIDE every definition (fields, arguments, enum values, union members, locations, interfaces) come in another order
+    _, _, ch3 = changes_of(render(m_old, None, True), render(m_new, order))
+    _, _, ch4 = changes_of(render(m_old), render(m_new, order, True))
+    if ch != ch3 or ch != ch4:
         return False
     if expect_cls is not None:
         hit = [c for c in ch if c[0] == expect_cls and all(n in c[1] for n in expect_names)]
@@ -332,7 +406,7 @@ def _edits_single(e1: int, e2: int, order: int) -> bool:
     """
     pre: 0 <= e1 < len(EDITS) and -1 <= e2 < len(EDITS) and e2 < e1
     pre: 0 <= order <= 1
-    pre: shard_of(e1)
+    pre: shard_of(e1 + e2 + 1)
     post: _
     """
     i = concrete_int(e1, 0, len(EDITS) - 1)
@@ -389,13 +463,16 @@ def _retype(site: int, w: int, other: bool, order: int, dflt: int = 0) -> bool:
         ow, base = split_type(old_t)
         nbase = base
         if oth:
-            nbase = {"Int": "String", "A": "B", "In": "Int"}[base]
+            nbase = {"Int": "String", "A": "B", "In": "Int", "Node": "B"}[base]
         new_t = join_type(nw, nbase)
         if kind == "field":
             m_new[s[1]]["fields"][s[2]]["type"] = new_t
+            if s[1] == "Node":
+                m_new["A"]["fields"][s[2]]["type"] = new_t
             names = [s[1], s[2]]
         elif kind == "arg":
             m_new[s[1]]["fields"][s[2]]["args"][s[3]]["type"] = new_t
+
             if m_new[s[1]]["fields"][s[2]]["args"][s[3]].get("default") is not None and (oth or "[" in nw):
                 m_new[s[1]]["fields"][s[2]]["args"][s[3]]["default"] = None
                 m_old[s[1]]["fields"][s[2]]["args"][s[3]]["default"] = None
@@ -412,6 +489,9 @@ def _retype(site: int, w: int, other: bool, order: int, dflt: int = 0) -> bool:
                 return m[s[1]]["fields"][s[2]]["args"][s[3]] if kind == "arg" else (m[s[1]]["fields"][s[2]] if kind == "input" else m["@" + s[1]]["args"][s[2]])
             slot(m_old)["default"] = None if DM == 1 else literal_for(ow, base, 0)
             slot(m_new)["default"] = None if DM == 2 else literal_for(nw, nbase, 1)
+        if s[1] == "Node" and kind == "arg":
+            for mm in (m_old, m_new):
+                mm["A"]["fields"][s[2]]["args"][s[3]] = copy.deepcopy(mm["Node"]["fields"][s[2]]["args"][s[3]])
         if new_t == old_t:
             return result(True, False)
         try:
